@@ -48,6 +48,10 @@ type Table struct {
 	// call, as a handler does that rewrites and re-dispatches) before it looks at its own Store
 	noRouteGen int // how often the no-route handler has been replaced
 
+	// AbortNext makes the handler of the next request panic with http.ErrAbortHandler after it has looked at its Store
+	// (the documented way to abort a request); the default relay lets it escape ServeHTTP, as net/http expects
+	AbortNext bool
+
 	Forward *http.Request
 	Inner   Obs
 	InnerP  any
@@ -104,6 +108,10 @@ func (t *Table) recordGen(idx int, gen int) httpd.HandlerFunc {
 		o.Any = strings.Clone(s.RouteParamAny())
 		o.Status = s.W.Status
 		o.ID = strings.Clone(s.GetID())
+		if t.AbortNext {
+			t.AbortNext = false
+			panic(http.ErrAbortHandler)
+		}
 	}
 }
 
